@@ -33,6 +33,15 @@ def jsonOp (toks : List String) : Option String :=
   | "rule" :: rest => do let r ← runP (do let r ← pRule; pEnd; pure r) rest; pure (rt Rule.toJson Rule.fromJson Rule.pyEq showRule r)
   | "context" :: rest => do let c ← runP (do let c ← pContext; pEnd; pure c) rest; pure (rt Context.toJson Context.fromJson Context.pyEq showContext c)
   | "packet" :: rest => do let p ← runP (do let p ← pPacket; pEnd; pure p) rest; pure (rt Packet.toJson Packet.fromJson Packet.pyEq showPacket p)
+  | "header" :: rest => do
+    let h ← runP (do let id ← pId; let len ← pNat; let n ← pNat; let fs ← pRep n pField; pEnd; pure (⟨id, len, fs⟩ : HeaderDesc)) rest
+    pure (rt HeaderDesc.toJson HeaderDesc.fromJson HeaderDesc.pyEq
+      (fun h => s!"{esc h.id} {h.length} {h.fields.length}" ++ String.join (h.fields.map fun f => s!" {esc f.id} {showABuf f.value} {f.position}")) h)
+  | "mapping" :: rest => do
+    let tv ← runP (do let tv ← pTV; pEnd; pure tv) rest
+    match tv with
+    | .map fwd => pure (rt mappingToJson mappingFromJson mappingEq (fun m => showTV (.map m)) fwd)
+    | _ => none
   | "use" :: rest => do
     let (c, pk, d, st) ← runP (do let c ← pContext; let pk ← pABuf; let d ← pDir; let st ← pStrategy; pEnd; pure (c, pk, d, st)) rest
     let run (c : Context) : String :=
